@@ -22,7 +22,7 @@ META = {
 
 
 def select(s):
-    return (s["changeAt"] == "none" and s["holder"] == "none" and s["wopt"] == "default"
+    return (not s["symlink"] and s["changeAt"] == "none" and s["holder"] == "none" and s["wopt"] == "default"
             and s["prior"] == "absent" and not s["shared"])
 
 
